@@ -22,6 +22,8 @@ static void vx_trim(void) { vx_trims++; size_t k = nondet_size(); __CPROVER_assu
 /*@FUNC quoted_states@*/
 /*@FUNC unquoted_string@*/
 /*@FUNC expect_record@*/
+static unsigned vx_end_quoted, vx_err_handler_calls; static bool vx_default_arm; static size_t vx_column_index;
+/*@FUNC eof_quoted@*/
 #ifdef VX_CBMC
 static struct csv_parser vx_p; static int vx_ec;
 static void setup(void)
@@ -35,6 +37,7 @@ static void setup(void)
     vx_p.line_ = nondet_size(); __CPROVER_assume(vx_p.line_ <= SIZE_MAX / 2); vx_p.ignore_empty_lines_ = nondet_bool(); vx_begin_records = 0; vx_state_pushes = 0;
 }
 void h_quoted_states(void) { setup(); quoted_states(&vx_p, &vx_ec); }
+void h_eof_quoted(void) { setup(); vx_end_quoted = 0; vx_default_arm = false; vx_column_index = nondet_size(); __CPROVER_assume(vx_column_index <= SIZE_MAX / 2); uint8_t st = nondet_u8(); __CPROVER_assume(st == csv_parse_state_quoted_string || st == csv_parse_state_escaped_value || st == csv_parse_state_before_last_quoted_field); vx_p.state_ = st; eof_quoted(&vx_p, &vx_ec); }
 void h_expect_record(void) { setup(); vx_p.state_ = csv_parse_state_expect_record; vx_buflen = 0; expect_record(&vx_p, &vx_ec); }
 void h_unquoted_string(void) { setup(); unquoted_string(&vx_p, &vx_ec); }
 #endif
